@@ -1905,7 +1905,7 @@ h2_recv_headers (connection * const con, uint8_t * const s, uint32_t flen)
             {   /*(quick peek at raw (non-normalized) r->target)*/
                 /*(bump .js and .css to urgency 2; see h2_init_stream())*/
                 const uint32_t len = buffer_clen(&r->target);
-                const char * const p = r->target.ptr+len-4;
+                const char * const p = len >= 4 ? r->target.ptr+len-4 : NULL;
                 if (len>=4 && (0==memcmp(p+1,".js",3)||0==memcmp(p,".css",4))) {
                     r->x.h2.prio = (2 << 1) | !0; /*(urgency=2, incremental=0)*/
                     http_header_response_set(r, HTTP_HEADER_PRIORITY,
